@@ -401,7 +401,11 @@ class FnTerms:
     def conditions(self, b):
         """Edge conditions that dominate block b: list of (discr_term, values, is_otherwise, excluded_values, switch_block)."""
         from .cfg import switch_edge_values
+        cc = self.__dict__.setdefault("_cond_cache", {})
+        if b in cc:
+            return cc[b]
         out = []
+        cc[b] = out
         for d, s in self.cfg.dominating_edges(b):
             term = self.blocks[d]["term"]
             vals, other = switch_edge_values(term, s)
@@ -485,16 +489,31 @@ def walk(t, seen=None):
                 st.append(y)
 
 
+_strip_cache = {}
+
+
 def strip_site(t):
     """structural copy without call sites (for comparing two computations)"""
     if not isinstance(t, tuple):
         return t
+    k = id(t)
+    hit = _strip_cache.get(k)
+    if hit is not None and hit[0] is t:
+        return hit[1]
+    r = _strip_site(t)
+    if len(_strip_cache) > 2000000:
+        _strip_cache.clear()
+    _strip_cache[k] = (t, r)
+    return r
+
+
+def _strip_site(t):
     if t and t[0] == "call":
         return ("call", t[1], tuple(strip_site(a) for a in t[2]))
     if t and t[0] == "ref":
         return ("ref", t[1], strip_site(t[2]), t[3] if len(t) > 3 else "")
     if t and t[0] == "const":
-        return t[:3]
+        return (t[0], t[1], t[2], None, None)
     return tuple(strip_site(x) for x in t)
 
 
@@ -598,5 +617,5 @@ def strip_all(t):
     if t and t[0] == "ref":
         return ("ref", t[1], strip_all(t[2]))
     if t and t[0] == "const":
-        return t[:3]
+        return (t[0], t[1], t[2], None, None)
     return tuple(strip_all(x) for x in t)
